@@ -3,9 +3,10 @@
 model      : BSP.tla (implementation-shaped, one action per critical section; exporter answers
              ok / error / timeout, caller contexts that expire, timer-triggered export) checked
              exhaustively by TLC for a family of small configurations against the contract carried by its
-             monitor variables; NoD<k> configs demonstrate that TLC finds each known deviation; the
-             pre-ada0bc0 code shape must still violate `Stuck` (D2/D3), the current one satisfies `Stuck`
-             and `Termination`; a model-level mutation (batch kept after a failed export) must violate NoDup.
+             monitor variables; NoD1/NoD4 configs demonstrate that TLC finds the known deviations; the shapes
+             before the repairs must still fail at model level (pre-ada0bc0: `Stuck` D2/D3, pre-6258232: NoD6,
+             pre-af9523f: NoD7), the current one satisfies `Stuck`, `Termination` and admits D1/D4 only; a
+             model-level mutation (batch kept after a failed export) must violate NoDup.
 spec->code : TLC -simulate behaviours of BSPSim.tla (BSP + history of instrumentation-point keys, exporter
              answers and context expiries) are replayed on the real processor: vh.Sched holds every
              goroutine at its hook / exporter / call gate until the behaviour says it is its turn.
@@ -117,21 +118,25 @@ DIRECTED = [
          script=ends("p1:1") + ["w@bsp.worker.dequeued:p1:1", "w@bsp.worker.appended:p1:1"] + ends("p1:2", "p1:3") +
          ["f1@call", "f1@bsp.ff.checked", "x@exp.begin", "f1@bsp.ff.marker", "s1@call"]),
     # ---- caller contexts
-    # D5: Shutdown's ctx expires while the worker is held in the exporter: it returns ctx.Err(); the drain then
-    # exports the queued span after it has returned
-    dict(name="D5-expired-shutdown", producers=1, spansPer=2, qcap=4, maxbatch=1, flushers=0, stoppers=1, ctx={"s1": "cancel"},
+    # Shutdown's ctx expires while the worker is held in the exporter: it returns ctx.Err(); the drain then exports the
+    # queued span after it has returned -- an OBSERVATION (obs:export-after-shutdown-returned-error), not a violation
+    dict(name="expired-shutdown", producers=1, spansPer=2, qcap=4, maxbatch=1, flushers=0, stoppers=1, ctx={"s1": "cancel"},
          script=ends("p1:1", "p1:2") + ["w@bsp.worker.dequeued:p1:1", "w@bsp.worker.appended:p1:1", "s1@call",
                                         "s1@ctx.expire/s1@bsp.sd.stopped", "s1@bsp.sd.stopped", "s1@ret", "x@exp.begin"]),
-    # D7: ... and a second Shutdown returns nil at once, before the drain has handed the queued span over
-    dict(name="D7-second-shutdown-nil", producers=1, spansPer=2, qcap=4, maxbatch=1, flushers=0, stoppers=2, ctx={"s1": "cancel"},
+    # (former D7, repaired by af9523f) ... a second Shutdown must NOT return nil before the drain has handed the queued
+    # span over: s2 (its own ctx expires later) must return ctx.Err(), s3 (Background) returns nil only after the drain.
+    # Before the repair s2 returned nil at once (shutdown-nil-while-expired-drain-runs: unlisted -> exit 1).
+    dict(name="second-shutdown-waits-for-drain", producers=1, spansPer=2, qcap=4, maxbatch=1, flushers=0, stoppers=3,
+         ctx={"s1": "cancel", "s2": "cancel"}, reps=3,
          script=ends("p1:1", "p1:2") + ["w@bsp.worker.dequeued:p1:1", "w@bsp.worker.appended:p1:1", "s1@call",
-                                        "s1@ctx.expire/s1@bsp.sd.stopped", "s1@bsp.sd.stopped", "s2@call", "s2@ret",
-                                        "x@exp.begin"]),
-    # D6: ForceFlush whose ctx becomes done after the stopped check: when the marker select takes the ctx
-    # exit the batch is exported as it is; if that (empty) export finishes first ForceFlush returns nil although
-    # the two queued spans were not handed over (two coin flips of Go's select per flusher)
-    dict(name="D6-flush-ctx-done-before-marker", producers=1, spansPer=2, qcap=8, maxbatch=8, flushers=4, stoppers=1,
-         exportTimeoutMs=0, slowDoneUs=400, ctx={"f1": "cancel", "f2": "cancel", "f3": "cancel", "f4": "cancel"},
+                                        "s1@ctx.expire/s1@bsp.sd.stopped", "s1@bsp.sd.stopped", "s1@ret", "s2@call",
+                                        "s2@ctx.expire/", "s2@ret", "s3@call", "x@exp.begin"]),
+    # (former D6, repaired by 6258232) ForceFlush whose ctx becomes done after the stopped check: when the marker select
+    # takes the ctx exit ForceFlush must return ctx.Err(). Before the repair it exported the batch as it was and, if that
+    # (empty) export finished first, returned nil although the two queued spans were not handed over (two coin flips of
+    # Go's select per flusher, 22 % per call: flush-missed-ctx-done-no-marker, unlisted -> exit 1)
+    dict(name="flush-ctx-done-before-marker", producers=1, spansPer=2, qcap=8, maxbatch=8, flushers=4, stoppers=1,
+         exportTimeoutMs=0, slowDoneUs=400, ctx={"f1": "cancel", "f2": "cancel", "f3": "cancel", "f4": "cancel"}, reps=6,
          script=ends("p1:1", "p1:2") +
          sum([["f%d@call" % i, "f%d@ctx.expire/f%d@bsp.ff.checked" % (i, i), "f%d@bsp.ff.checked" % i, "f%d@ret" % i]
               for i in (1, 2, 3, 4)], []) +
@@ -155,6 +160,17 @@ DIRECTED = [
     dict(name="cancelled-contexts", producers=1, spansPer=2, qcap=4, maxbatch=2, flushers=1, stoppers=2,
          ctx={"f1": "cancelled", "s1": "cancelled"},
          script=ends("p1:1") + ["f1@call"] + ends("p1:2") + ["s1@call", "s2@call"]),
+    # the drain meets a failing exporter: every queued span must still be handed over exactly once
+    dict(name="drain-with-failing-exporter", producers=1, spansPer=5, qcap=8, maxbatch=1, flushers=0, stoppers=1, reps=3,
+         outcomes=["ok", "error", "error", "error", "ok"],
+         script=ends("p1:1") + ["w@bsp.worker.dequeued:p1:1", "w@bsp.worker.appended:p1:1"] +
+         ends("p1:2", "p1:3", "p1:4", "p1:5") + ["s1@call", "s1@bsp.sd.stopped", "s1@bsp.sd.closed", "x@exp.begin"]),
+    # sampled spans that carry further trace-flag bits (0x03 through a remote parent) are sampled spans
+    dict(name="extra-trace-flags", producers=2, spansPer=3, qcap=8, maxbatch=2, flushers=1, stoppers=1, parentFlags=3,
+         script=ends("p1:1", "p2:1", "p1:2", "p2:2") + ["f1@call", "f1@ret"] + ends("p1:3", "p2:3") + ["s1@call"]),
+    dict(name="extra-trace-flags-blocking", producers=2, spansPer=3, qcap=8, maxbatch=2, blocking=True, flushers=1, stoppers=1,
+         parentFlags=2,
+         script=ends("p1:1", "p2:1", "p1:2", "p2:2") + ["f1@call", "f1@ret"] + ends("p1:3", "p2:3") + ["s1@call"]),
     # ---- timer-triggered export (tiny BatchTimeout): the worker has nothing else to do, the timer fires, the
     # export is held at the exporter's gate while a ForceFlush and a size-triggered batch pile up behind it
     dict(name="timer-vs-flush", producers=1, spansPer=4, qcap=4, maxbatch=2, flushers=1, stoppers=1, batchTimeoutUs=1500,
@@ -169,15 +185,15 @@ DIRECTED = [
 ]
 # what each known-deviation schedule is expected to exhibit (binding of the gates; a note, never a verdict)
 EXPECT = {"D1-flush-during-shutdown": "flush-missed-during-shutdown", "D4-enqueue-after-drain": "shutdown-missed-raced",
-          "end-after-drain-blocking": "shutdown-missed-raced", "D5-expired-shutdown": "export-after-expired-shutdown",
-          "D7-second-shutdown-nil": "shutdown-nil-while-expired-drain-runs",
-          "D6-flush-ctx-done-before-marker": "flush-missed-ctx-done-no-marker"}
+          "end-after-drain-blocking": "shutdown-missed-raced",
+          "expired-shutdown": "obs:export-after-shutdown-returned-error"}
 
 
 def scenario(d, blocking=False):
     sc = dict(producers=1, spansPer=1, qcap=2, maxbatch=2, blocking=blocking, flushers=0, flushesPer=1, stoppers=1,
-              batchTimeoutUs=0, exportTimeoutMs=30000, expMode="ok", perturb=0.0, slowDoneUs=0)
+              batchTimeoutUs=0, exportTimeoutMs=30000, expMode="ok", perturb=0.0, slowDoneUs=0, parentFlags=0)
     sc.update(d)
+    sc.pop("reps", None)
     return sc
 
 
@@ -214,10 +230,10 @@ def run(ctx):
         ctx.note_inconclusive("vacuity: BSP.tla actions never taken in the coverage configs: %s" % sorted(zero))
     # TLC must find each known deviation when it is not admitted (guards against a vacuous contract)
     found = {}
+    # ... and the repaired ones in the shape that lacks the repair (model-level regression of 6258232 / af9523f)
     for inv, c, kw in (("NoD1", (2, 1, 2, 2, False, 1, 1), {}), ("NoD4", (1, 1, 2, 2, False, 0, 2), {}),
-                       ("NoD5", (1, 2, 1, 1, False, 0, 1), dict(expiring=("s1",))),
-                       ("NoD7", (1, 2, 1, 1, False, 0, 2), dict(expiring=("s1",))),
-                       ("NoD6", (1, 1, 1, 1, False, 1, 1), dict(expiring=("f1",)))):
+                       ("NoD7", (1, 2, 1, 1, False, 0, 2), dict(expiring=("s1",), shape="pre-af9523f")),
+                       ("NoD6", (1, 1, 1, 1, False, 1, 1), dict(expiring=("f1",), shape="pre-6258232"))):
         r = ctx.tlc(S, "MC_BSP", "MC_BSP.cfg", defines=mc_defs(*c, inv=inv, **kw), name="mc-" + inv.lower(),
                     must_pass=False, count=False, timeout=600)
         found[inv] = r["violated"]
@@ -240,10 +256,6 @@ def run(ctx):
     found["mc-noreset"] = r["violated"]
     if r["violated"] != "NoDup":
         ctx.note_inconclusive("model drift: keeping the batch after a failed export does not violate NoDup (%s)" % r["out"])
-    # the proposed repairs of D6 / D7 (proposed_fixes/C01-*.diff) on the model: with that shape neither deviation is reachable
-    ctx.tlc(S, "MC_BSP", "MC_BSP.cfg", name="mc-proposed-fixes", timeout=3000,
-            defines=mc_defs(1, 2 if thorough else 1, 1, 2, False, 1, 2, shape="proposed", inv="Stuck NoD6 NoD7",
-                            expiring=("f1", "s1", "s2") if thorough else ("f1", "s1")))
     ctx.extra["model_level_regressions"] = found
     # liveness under fairness: every call returns and every background goroutine finishes, with queues that fill
     live = [(2, 1, 1, 1, True, 1, 1), (2, 1, 1, 1, False, 1, 1)]
@@ -286,7 +298,7 @@ def run(ctx):
                 scenarios.append(scenario(d, blocking=blocking))
     nbeh = len(scenarios)
     for d in DIRECTED:
-        for rep in range(5 if thorough else 2):
+        for rep in range(d.get("reps", 1) * (5 if thorough else 2)):
             scenarios.append(scenario(d))
     sfile = os.path.join(ctx.work, "scripts.json")
     json.dump(scenarios, open(sfile, "w"))
@@ -316,6 +328,17 @@ def run(ctx):
     ctx.add_samples(res2["samples"][:1])
     kinds = {}
     by_name = {}
+    observations = {}
+    cfg_names = {}
+
+    def scen_name(tf, v):
+        if tf not in cfg_names:
+            cfg_names[tf] = {}
+            for ln in open(tf):
+                if '"ev":"Cfg"' in ln:
+                    rec = json.loads(ln)
+                    cfg_names[tf][rec["sc"]] = rec.get("name", "")
+        return cfg_names[tf].get(v["sc"], "")
     for tf, label in ((t1, "scripts"), (t2, "random")):
         viols, accepted = ctx.validate_trace(S, "Trace_BSP", "Trace_BSP.cfg", tf, name="trace-" + label, timeout=3000)
         ctx.extra["trace_lines_" + label] = accepted
@@ -323,6 +346,10 @@ def run(ctx):
         for v in viols:
             kind = v["v"]["kind"]
             kinds[kind] = kinds.get(kind, 0) + 1
+            if kind.startswith("obs:"):  # reported by the contract as an observation: counted, never a violation
+                observations[kind] = observations.get(kind, 0) + 1
+                by_name.setdefault(scen_name(tf, v), set()).add(kind)
+                continue
             if lines is None:
                 lines = open(tf).read().splitlines()
             scen = []
@@ -340,6 +367,7 @@ def run(ctx):
             ctx.violation({"kind": kind, "source": label},
                           replay={"violation": v, "scenario_name": name, "events": scen[-400:]})
     ctx.extra["violation_kinds_seen"] = kinds
+    ctx.extra["observations"] = observations
     ctx.traces_validated += res1["executed"] + res2["executed"]
     ctx.evaluations += res1["executed"] + res2["executed"]
     # the directed schedules must actually reproduce the known deviations (binding check; a note, not a verdict)
@@ -347,7 +375,8 @@ def run(ctx):
     if not_repro:
         ctx.extra["note"] = "directed schedules that did not exhibit their deviation in this run: %s" % not_repro
     # vacuity of the new regimes (never a verdict)
-    need = ["abandoned", "ctx_expired", "exports_failed", "exports_timed_out", "ff_ret_ctx", "sd_ret_ctx"]
+    need = ["abandoned", "ctx_expired", "exports_failed", "exports_timed_out", "ff_ret_ctx", "sd_ret_ctx",
+            "spans_with_extra_trace_flags"]
     missing = [k for k in need if not counters.get(k)]
     if missing:
         ctx.note_inconclusive("vacuity: regimes never reached on the real code: %s" % missing)
@@ -357,8 +386,9 @@ def run(ctx):
     ctx.assumptions += [
         "caller contexts: Background, already cancelled, cancelled during the call, far deadline (a deadline that fires is "
         "driven as a cancellation so that its instant can be logged before it happens)",
-        "\"after Shutdown has returned\" is read literally (with or without error); what the code does after a Shutdown "
-        "whose ctx expired is classified separately (D5) from exports after a completed Shutdown",
+        "\"nothing is exported after Shutdown has returned\" is judged for Shutdown calls that returned nil; an export after "
+        "a Shutdown that returned its ctx error is counted as an observation (the statement does not quantify over "
+        "expiring caller contexts)",
         "ExportTimeout > 0 <=> ExportSpans gets a ctx with deadline (godoc of BatchSpanProcessorOptions.ExportTimeout); an "
         "export on behalf of a ForceFlush inherits the caller's deadline",
         "timer-triggered exports: gated where the worker has nothing else to do (tiny BatchTimeout), otherwise by perturbation",
